@@ -31,7 +31,8 @@ REQUIRED_BUCKETS = {"quick": ["op:+", "op:*", "op:@", "nested:product-in-sum", "
                               "zero:first-factor", "dispersity:>=2-components", "magnetic", "vector-component",
                               "python-component", "oriented-component", "lane:asan", "magnetic:all-sld-components", "magnetic:with-nonmagnetic-bystander",
                               "magnetic:with-python-bystander", "component-with-empty-mesh",
-                              "no-sld-parameter-in-mixture", "magnetic:no-positive-component"]}
+                              "no-sld-parameter-in-mixture", "magnetic:no-positive-component",
+                              "precision:single", "magnetic:bystander-with-direction-angles"]}
 REQUIRED_BUCKETS["thorough"] = REQUIRED_BUCKETS["quick"]
 
 SFACTORS = ["hardsphere", "hayter_msa", "squarewell", "stickyhardsphere"]
@@ -66,6 +67,10 @@ def gen_expr(rng, force=None):
     if (force or {}).get("mag"):
         pool = [m for m in pool if not sas.is_python(m) and sas.info(m).parameters.nmagnetic > 0
                 and m not in ("superball", "pringle")]
+    if (force or {}).get("single"):
+        # only components declared safe for single precision (and cheap, well-conditioned ones)
+        pool = [m for m in pool if not sas.is_python(m) and sas.info(m).single
+                and m not in ("superball", "pringle", "spherical_sld", "onion")]
     spherical = [m for m in pool if sas.info(m).radius_effective_modes and not sas.is_python(m)]
     force = force or {}
 
@@ -115,6 +120,8 @@ def gen_cases(tier, seed):
               {"at": True}, {"oriented": True}, {"python": True}, {"shape": ["LLL"], "zero_first": True}, {},
               {"mag": "all"}, {"mag": "partial", "shape": ["L", "L"]}, {"mag": "all", "shape": ["LL", "L"]},
               {"mag": "all", "shape": ["L", "L"], "python": True}, {"mag": "all", "shape": ["LL"], "python": True},
+              {"single": True, "python": True, "shape": ["L", "L"]}, {"single": True, "python": True, "shape": ["LL"]},
+              {"single": True, "shape": ["L", "L"]}, {"mag": "all", "shape": ["L", "L", "L"]},
               {"nosld": True, "shape": ["L", "L"]}, {"nosld": True, "shape": ["LL"]}, {"nosld": True, "shape": ["L", "LL"]},
               {"empty": True, "shape": ["L", "L"]}, {"empty": True, "shape": ["L", "L", "L"]}, {"empty": True, "shape": ["LL", "L"]}]
     for k in range(n):
@@ -190,6 +197,12 @@ def leaf_parameters(factor, rng, seedk, dim, want_zero=False, want_pd=True, want
                     pars[s + "_mtheta"], pars[s + "_mphi"] = 0.0, 0.0
                 tags.add("mag-nonpositive")
             tags.add("mag")
+    if not want_mag and dim == "2d" and "@" not in factor and not sas.is_python(i) and i.parameters.nmagnetic > 0 and seedk % 2 == 0:
+        # direction angles on an SLD without magnetisation (zero amplitude): they carry no meaning
+        for s_ in [p.name for p in i.parameters.call_parameters if p.type == "sld" and p.name in sas.active_names(i, pars)]:
+            pars[s_ + "_mtheta"] = float(rng.uniform(10, 80))
+            pars[s_ + "_mphi"] = float(rng.uniform(10, 170))
+        tags.add("angles-without-amplitude")
     return i, pars, tags
 
 
@@ -241,13 +254,14 @@ def to_combined(pairs, leaf_pars):
     return out
 
 
-def evaluate(expr_or_info, pars, qv, cutoff=0.0):
+def evaluate(expr_or_info, pars, qv, cutoff=0.0, dtype="double"):
     from sasmodels import core as sascore, direct_model
     info = load_info(expr_or_info) if isinstance(expr_or_info, str) else expr_or_info
-    key = ("model", info.id if isinstance(expr_or_info, str) else id(info), expr_or_info if isinstance(expr_or_info, str) else "")
+    key = ("model" if dtype == "double" else "model-" + dtype, info.id if isinstance(expr_or_info, str) else id(info),
+           expr_or_info if isinstance(expr_or_info, str) else "")
     model = _info_cache.get(key)
     if model is None:
-        model = sascore.build_model(info, dtype="double", platform="dll")
+        model = sascore.build_model(info, dtype=dtype, platform="dll")
         _info_cache[key] = model
     kernel = model.make_kernel(qv)
     try:
@@ -370,6 +384,8 @@ def run_case(case, rec):
         rec.bucket("no-sld-parameter-in-mixture")
     if any("empty" in t for t in tags_all):
         rec.bucket("component-with-empty-mesh")
+    if anymag and any("angles-without-amplitude" in t for t in tags_all):
+        rec.bucket("magnetic:bystander-with-direction-angles")
     if any("mag-nonpositive" in t for t in tags_all):
         rec.bucket("magnetic:no-positive-component")
     if anymag and pybystander:
@@ -387,6 +403,33 @@ def run_case(case, rec):
     rec.check("equals_stated_combination", ok,
               None if ok else dict(ctx, observed=I, expected=expected, zero_components=zeros,
                                    max_rel_err=core.maxrel(I, expected, 1e-12*smax)), key=key)
+    # ---- the same expression built in single precision (each compiled component gets values of its own precision)
+    if (case.get("force") or {}).get("single") and np.all(np.isfinite(I)):
+        from sasmodels import core as sascore, direct_model
+        try:
+            m32 = sascore.build_model(cinfo, dtype="single", platform="dll")
+            I32 = np.asarray(direct_model.call_kernel(m32.make_kernel(qv), dict(cpars)), float)
+            # the stated combination of the parts, each evaluated alone in single precision
+            exp32 = np.zeros(len(qv[0]))
+            for (scale_name, facs), row in zip(layout, leaves):
+                xs = cpars.get(scale_name, 1.0) if scale_name else 1.0
+                term = np.ones(len(qv[0]))
+                for (f, i_, lp, tags) in row:
+                    solo32 = dict(lp, scale=1.0, background=0.0)
+                    if any("mag" in t_ for t_ in tags_all) and not sas.is_python(i_) and i_.parameters.nmagnetic > 0:
+                        solo32.update({kk_: cpars[kk_] for kk_ in ("up_frac_i", "up_frac_f", "up_theta", "up_phi") if kk_ in cpars})
+                    term = term*evaluate(f, solo32, qv, dtype="single")
+                exp32 = exp32 + xs*term
+            exp32 = scale*exp32 + bg
+            s32 = float(np.max(np.abs(exp32 - bg)))
+            ok32 = core.close(I32, exp32, 2e-4, 1e-5*s32 + 1e-6)
+            rec.check("equals_stated_combination", ok32,
+                      None if ok32 else dict(ctx, note="single-precision build of the mixture against its parts in single precision",
+                                             mixture_single=I32, parts_single=exp32, double=I,
+                                             max_rel_err=core.maxrel(I32, exp32, 1e-6*s32)))
+            rec.bucket("precision:single")
+        except NotImplementedError:
+            pass
     # ---- the same mixture kernel reused with another dispersity shape must agree with a fresh kernel
     pdn = sorted(k for k in cpars if k.endswith("_pd_n"))
     if pdn:
